@@ -693,6 +693,15 @@ pub fn INDEX_CURRENT(b: &Snap) -> Want {
     }
     w
 }
+/// INDEX.DESTINATION: Pushes the destination field of the top INDEX to the INTEGER stack.
+pub fn INDEX_DESTINATION(b: &Snap) -> Want {
+    let mut w = Want::new(b, 0, M_INT);
+    if b.index.len >= 1 {
+        w.s.int.push(b.index.top(0).1 as i32);
+        w.fired = true;
+    }
+    w
+}
 /// INDEX.DEFINE: Pushes the top INTEGER as destination of a new index (negative values become 0).
 pub fn INDEX_DEFINE(b: &Snap) -> Want {
     let mut w = Want::new(b, M_INT, M_INDEX);
